@@ -102,7 +102,10 @@ impl JulianDay {
     }
     if hour > 23 {
       hour -= 24;
-      day += 1
+      let d: SolarDay = SolarDay::from_ymd(year, month as usize, day as usize).next(1);
+      year = d.get_year();
+      month = d.get_month() as isize;
+      day = d.get_day() as isize;
     }
     SolarTime::from_ymd_hms(year, month as usize, day as usize, hour as usize, minute as usize, second as usize)
   }
